@@ -29,6 +29,18 @@ ulong_optimization(arg_t *arg, asn1p_expr_type_e etype, asn1cnst_range_t *r_size
 }
 
 int
+asn1c_emit_constraint_tables_only(arg_t *arg) {
+	int saved_target = arg->target->target;
+	int ret;
+
+	REDIR(OT_CTABLES);
+	ret = asn1c_emit_constraint_tables(arg, 0);
+	REDIR(saved_target);
+
+	return ret;
+}
+
+int
 asn1c_emit_constraint_checking_code(arg_t *arg) {
 	asn1cnst_range_t *r_size;
 	asn1cnst_range_t *r_value;
